@@ -150,6 +150,9 @@ func checkMain(repo, verif string, args []string) int {
 		if !inTier(r, tier) {
 			continue
 		}
+		if only := os.Getenv("VERIF_ONLY_RUN"); only != "" && only != r.Name {
+			continue
+		}
 		cfg := &symx.Config{Entry: r.Entry, Bounds: r.Bounds, MaxInstr: 20_000_000, LoopBudget: 5000, Solver: "z3", TimeoutMs: 60000,
 			Workers: 8, Preempt: -1, MaxLevel: r.MaxLevel, StopOnFirst: false, NumCPU: 2, SchedFree: r.SchedFree, PreemptNamed: r.Named}
 		if r.Preempt != nil {
